@@ -167,7 +167,10 @@ def shape_subjects(e):
         return subs
     cp = compare_parts(e)
     if cp and cp[0] is ast.Eq:
-        return [cp[1], cp[2]]
+        subs = [cp[1], cp[2]]
+        # `X.head == c` fixes the head of X
+        subs += [x.value for x in (cp[1], cp[2]) if isinstance(x, ast.Attribute) and x.attr == 'head']
+        return subs
     if cp and cp[0] is ast.In:
         return [cp[1]]
     return []
@@ -177,7 +180,7 @@ def negated_subjects(e):
     """... when it is false (`X != t`, `X not in S`)"""
     cp = compare_parts(e)
     if cp and cp[0] is ast.NotEq:
-        return [cp[1], cp[2]]
+        return [cp[1], cp[2]] + [x.value for x in (cp[1], cp[2]) if isinstance(x, ast.Attribute) and x.attr == 'head']
     if cp and cp[0] is ast.NotIn:
         return [cp[1]]
     return []
